@@ -21,12 +21,15 @@ def impl_one(case):
         # the same rule object and the same buffer are first used for another matrix, which is then overwritten in place
         import numpy as np
         buf = np.array(to_np(case["pre"]))
+        prof = ValuationProfile.of(buf)
         try:
-            rule.scf(ValuationProfile.of(buf))
+            rule.scf(prof)
         except Exception:
             pass
+        # the caller revises the utilities in place and asks again with the very same profile object
+        np.copyto(prof, np.asarray(W, dtype=float))
         buf[...] = W
-        out = rule.scf(ValuationProfile.of(buf))
+        out = rule.scf(prof)
     else:
         out = rule.scf(ValuationProfile.of(W))
     return {"cols": [int(x) for x in out]}
@@ -37,7 +40,15 @@ def fracs(W):
 
 
 def gen(R, n):
-    kind = R.rng.choice([0, 1, 2, 3, 4, 5, 5, 5])
+    kind = R.rng.choice([0, 1, 2, 3, 4, 5, 5, 5, 6])
+    if kind == 6:     # large integers that differ in their last digits (beyond single precision, well inside double precision)
+        base = R.rng.choice([2 ** 24, 2 ** 25, 10 ** 8, 2 ** 31, 10 ** 12, 2 ** 45])
+        W = [[base + R.rng.randint(0, 6) for _ in range(n)] for _ in range(n)]
+        if R.rng.random() < 0.3:
+            W = [[None if R.rng.random() < 0.15 else v for v in row] for row in W]
+            if all(v is None for row in W for v in row):
+                W[0][0] = base
+        return W, "large_integers_close_together"
     if kind == 5:     # sparse but feasible: a hidden perfect assignment plus a few extra acceptable pairs, wide integer values
         hidden = list(range(n))
         R.rng.shuffle(hidden)
